@@ -459,6 +459,38 @@ def real_points_case(N, bs, shuffle, drop_last):
                 max_paths=40, max_forks_per_site=40)
 
 
+def shared_points_case(N, bs, shuffle2):
+    """history: two loaders are built from ONE Points object x (inputs) with different targets; the first one shuffles.
+    The second loader still pairs x_i with v_i, and the user's Points objects are left as they were"""
+    name = "B/points_shared_input/N%d_bs%d/second_shuffle%s" % (N, bs, _flag(shuffle2))
+
+    def body(env):
+        X, U, V = env.tensor("X", (N, 1)), env.tensor("U", (N, 1)), env.tensor("V", (N, 1))
+        xs = [env.v(X[i, 0]) for i in range(N)]
+        for i in range(N):
+            for j in range(i):
+                env.assume(env.L.ne(xs[i], xs[j]))
+        px, pu, pv = Points(X, SX), Points(U, tp.spaces.R1("u")), Points(V, tp.spaces.R1("u"))
+        l1 = tp.utils.PointsDataLoader((px, pu), batch_size=bs, shuffle=True)
+        l2 = tp.utils.PointsDataLoader((px, pv), batch_size=bs, shuffle=shuffle2)
+        b2 = [(b[0].as_tensor, b[1].as_tensor) for b in l2]
+        b1 = [(b[0].as_tensor, b[1].as_tensor) for b in l1]
+        return dict(X=X, U=U, V=V, b1=b1, b2=b2, px=px.as_tensor, pu=pu.as_tensor, pv=pv.as_tensor)
+
+    def goals(o, L, env):
+        X, U, V = o["X"], o["U"], o["V"]
+        for nm, got, want in (("x", o["px"], X), ("u", o["pu"], U), ("v", o["pv"], V)):
+            yield "users_points_unchanged[%s]" % nm, L.And([_rows_eq(L, a, b) for a, b in zip(got, want)]) if len(got) == len(want) else False
+        for tag, bt, T_ in (("first", o["b1"], U), ("second", o["b2"], V)):
+            for k, (xb, yb) in enumerate(bt):
+                yield "rows_are_dataset_pairs[%s,batch%d]" % (tag, k), L.And(
+                    [L.Or([L.And(_rows_eq(L, xr, X[s]), _rows_eq(L, yr, T_[s])) for s in range(N)]) for xr, yr in zip(xb, yb)])
+            yield "presented_count[%s]" % tag, sum(len(xb) for xb, _ in bt) == N
+
+    return Case(name, body, goals, family="B/points_shared_input", params=dict(N=N, bs=bs, shuffle2=shuffle2),
+                max_paths=math.factorial(N) ** (2 if shuffle2 else 1) + 8, max_forks_per_site=40)
+
+
 def real_deeponet_case(layout, Nb, Nt, bb, bt, shb, sht):
     name = "B/deeponet/%s/Nb%d_Nt%d_bs%d_%d/shuffle_b%s_t%s" % (layout, Nb, Nt, bb, bt, _flag(shb), _flag(sht))
 
@@ -674,6 +706,9 @@ def cases(tier):
         pts += [(4, 3, True, False), (4, 3, True, True), (4, 4, True, False), (3, 1, True, False), (1, 1, True, True)]
     for N, bs, sh, dl in pts:
         cs.append(real_points_case(N, bs, sh, dl))
+    cs.append(shared_points_case(3, 2, False))
+    if th:
+        cs.append(shared_points_case(3, 2, True))
     don = [("shared", 3, 2, 2, 1, True, True), ("shared", 2, 3, 1, 2, False, False), ("unique", 3, 2, 2, 1, True, True),
            ("unique", 2, 2, 1, 2, False, True)]
     if th:
